@@ -193,6 +193,81 @@ func c03R1(h H) {
 				r.Check(ok, "R1", "basicauth.BasicAuth.ServeHTTP/rules-loop-exit", e.From.Instrs[len(e.From.Instrs)-1].Pos(),
 					"the loop over Rules is left only when every rule has been consulted (an exclude or a failed login in one rule must not hide later rules)")
 			}
+			// each rule is judged on its own: whether a rule's resources are examined may depend on the rule and the
+			// request, never on what an earlier rule did (a flag carried from one iteration into the next, such as an
+			// 'excluded' that is not reset, lets an earlier rule switch a later one off)
+			carried := map[*ssa.Phi]bool{}
+			for _, in := range hd.Instrs {
+				if ph, ok := in.(*ssa.Phi); ok {
+					carried[ph] = true
+				}
+			}
+			{
+				// the loop counter(s): header φs the continuation test is computed from
+				seen := map[ssa.Value]bool{}
+				var walk func(v ssa.Value)
+				walk = func(v ssa.Value) {
+					if v == nil || seen[v] {
+						return
+					}
+					seen[v] = true
+					switch t := v.(type) {
+					case *ssa.Phi:
+						delete(carried, t)
+					case *ssa.BinOp:
+						walk(t.X)
+						walk(t.Y)
+					case *ssa.UnOp:
+						walk(t.X)
+					}
+				}
+				walk(hif.Cond)
+			}
+			dependsOnCarried := func(v ssa.Value) (string, bool) {
+				seen := map[ssa.Value]bool{}
+				var hit string
+				var walk func(v ssa.Value) bool
+				walk = func(v ssa.Value) bool {
+					if v == nil || seen[v] {
+						return false
+					}
+					seen[v] = true
+					if ph, ok := v.(*ssa.Phi); ok && carried[ph] {
+						hit = ph.Comment
+						return true
+					}
+					in, ok := v.(ssa.Instruction)
+					if !ok {
+						return false
+					}
+					if _, isCall := v.(*ssa.Call); isCall {
+						return false // results of calls are judged by their own arguments elsewhere
+					}
+					for _, op := range in.Operands(nil) {
+						if *op != nil && walk(*op) {
+							return true
+						}
+					}
+					return false
+				}
+				return hit, walk(v)
+			}
+			resCalls := findCalls(fn, func(in ssa.Instruction) bool {
+				c, ok := in.(*ssa.Call)
+				return ok && loop[in.Block()] && strings.HasSuffix(calleeName(&c.Call), "httpserver.Path).Matches") && derives(c.Call.Args[1], func(x ssa.Value) bool { return readsField(x, "Resources") }, flowOpts{})
+			})
+			for k, c := range resCalls {
+				okInd := true
+				var facts []string
+				for _, g := range guardAtoms(fn, firstInstr(hd), c) {
+					if name, dep := dependsOnCarried(g.Cond); dep {
+						okInd = false
+						facts = append(facts, "guard "+describe(g.Cond)+" carries "+name+" over from earlier rules")
+					}
+				}
+				r.Check(okInd, "R1", sprintf("basicauth.BasicAuth.ServeHTTP/rule-judged-independently#%d", k+1), c.Pos(),
+					"whether a rule's resources are matched against the request does not depend on state left by earlier rules", facts...)
+			}
 			// exclude match continues with the next rule
 			exEdges := guardEdges(fn, true, func(v ssa.Value) bool {
 				c, ok := v.(*ssa.Call)
